@@ -32,7 +32,8 @@ ASSUMPTIONS = [
     "well-formed problems: regions partition the board into orthogonally connected sets, clue values within the module's documented alphabet",
 ]
 
-T2_TIMEOUT = 900
+T2_TIMEOUT = 240
+T2DIR = os.path.join(vlib.ROOT, "work", "C11")   # outside coq/theories: never part of the global make; git-ignored
 
 
 def _lib():
@@ -84,6 +85,7 @@ def generated_obligations(ctx, proof, broken):
         ctx.count("tier2-instances:" + p.NAME, idx)
     wanted = set()
     todo = []
+    os.makedirs(T2DIR, exist_ok=True)
     with vlib.Lock():
         deps = ["theories/Puzzle/SatAbs.vo"] + ["theories/Puzzle/Rules_%s.vo" % p.NAME for p in plugs]
         rc, out = vlib.coq_make(deps)
@@ -93,7 +95,7 @@ def generated_obligations(ctx, proof, broken):
     for (name, k, chunk) in files:
         fn = "C11_%s_%d.v" % (name, k)
         wanted.add(fn)
-        path = os.path.join(vlib.GEN, fn)
+        path = os.path.join(T2DIR, fn)
         vlib.write_if_changed(path, L.tier2_header(name) + "\n\n".join(chunk) + "\n")
         total += len(chunk)
         vo = path[:-2] + ".vo"
@@ -101,25 +103,29 @@ def generated_obligations(ctx, proof, broken):
                    ["theories/Puzzle/SatAbs.vo", "theories/Puzzle/Rules_%s.vo" % name])
         if not (os.path.exists(vo) and os.path.getmtime(vo) > max(os.path.getmtime(path), depm)):
             todo.append(fn)
-    for f in os.listdir(vlib.GEN):
+    for f in os.listdir(T2DIR):
         if f.startswith("C11_") and f.split(".")[0] + ".v" not in wanted:
-            os.remove(os.path.join(vlib.GEN, f))
+            os.remove(os.path.join(T2DIR, f))
+    for fn in sorted(wanted):
+        with open(os.path.join(T2DIR, fn)) as fh:
+            if vlib.FORBIDDEN.search(fh.read()):
+                broken.append(("forbidden-constructs", "work/C11/" + fn))
     failed = {}
     if todo:
         cmd = ("printf '%s\\n' " + " ".join(todo) +
-               " | xargs -P16 -I{} sh -c 'timeout %d coqc -q -Q theories Cspuz theories/Gen/{} > theories/Gen/{}.log 2>&1 || echo FAILED {}'" % T2_TIMEOUT)
+               " | xargs -P16 -I{} sh -c 'timeout %d coqc -q -Q theories Cspuz -Q ../work/C11 C11Gen ../work/C11/{} > ../work/C11/{}.log 2>&1 || echo FAILED {}'" % T2_TIMEOUT)
         rc, out = vlib.sh(cmd, cwd=vlib.COQ, timeout=T2_TIMEOUT * (1 + len(todo) // 16) + 60)
         for line in out.split("\n"):
             if line.startswith("FAILED"):
                 fn = line.split()[1]
                 try:
-                    failed[fn] = open(os.path.join(vlib.GEN, fn + ".log")).read()[-600:]
+                    failed[fn] = open(os.path.join(T2DIR, fn + ".log")).read()[-600:]
                 except OSError:
                     failed[fn] = "?"
     discharged = 0
     for (name, k, chunk) in files:
         fn = "C11_%s_%d.v" % (name, k)
-        if fn not in failed and os.path.exists(os.path.join(vlib.GEN, fn[:-2] + ".vo")):
+        if fn not in failed and os.path.exists(os.path.join(T2DIR, fn[:-2] + ".vo")):
             discharged += len(chunk)
     proof["generated_obligations"] = total
     proof["generated_discharged"] = discharged
